@@ -1,6 +1,10 @@
-From C17 Require Import Model.
+From C17 Require Import Model Model2 Model3.
 Require Extraction.
 Require Import ExtrOcamlBasic.
 Extraction "model.ml" bint_zero bint_one fromuinteger frominteger touinteger tointeger
   badd bsub bmul binc bdec bnot bunm band bor bxor beq ult ule blt ble isneg shlone shrone
+  shlwords shrwords bshl bshr bwrap brol bror
+  biszero bisone bisminusone biseven bisodd bint_mininteger bint_maxinteger babs bmax bmin
+  udivmod udiv umod tdivmod idivmod bidiv bmod ipow upowmod compress
+  tobase frombase bn_from_bin bn_from_hex bn_from_dec tohexint tobinint todecint
   BINT_SIZE uval sval.
